@@ -248,7 +248,7 @@ func (q *OutQueue) cleanAckedChunks() {
 		}
 	}
 	if len(q.acked) > MaxCachedChunks {
-		q.acked = q.acked[0:MaxCachedChunks]
+		q.acked = q.acked[len(q.acked)-MaxCachedChunks:]
 	}
 
 	q.checkQueueFull()
